@@ -213,7 +213,7 @@ theorem frees_append (s t : List Act) : frees (s ++ t) = frees s + frees t := by
 @[simp] theorem frees_cons_free (b : Blk) (n : Nat) (l : List Act) : frees (.free b n :: l) = frees l + 1 := by
   simp [frees, Act.isShrink]
 @[simp] theorem shrinks_cons_shrink (b : Blk) (n : Nat) (l : List Act) : shrinks (.shrink b n :: l) = shrinks l + 1 := by
-  simp [shrinks, Act.isShrink]
+  simp [shrinks, List.filter_cons, Act.isShrink]
 @[simp] theorem frees_cons_shrink (b : Blk) (n : Nat) (l : List Act) : frees (.shrink b n :: l) = frees l := by
   simp [frees, Act.isShrink]
 
@@ -242,45 +242,51 @@ theorem run_ok (l : List Act) : ∀ a : A, RunOK a (a.run l) l := by
     cases x with
     | free b n =>
       have r := ih (a.free b n)
+      have e : a.act (.free b n) = a.free b n := rfl
+      rw [e]
       have hh : ∀ m, (a.free b n).hits m ↔ a.hits m := fun m => Iff.rfl
       have ha : ∀ m, (a.free b n).after m = a.after m := fun m => rfl
       refine ⟨fun h => ?_, fun h => ?_, ?_, ?_, fun h => ?_⟩
       · simp only [shrinks_cons_free] at h ⊢
-        obtain ⟨h1, h2⟩ := r.pass ((hh _).not.2 h)
-        exact ⟨by rw [h1, ha], by rw [h2]; simp [A.act, Ev.refused]⟩
+        obtain ⟨h1, h2⟩ := r.pass (fun x => h ((hh _).1 x))
+        exact ⟨by rw [h1, ha], by rw [h2]; simp [Ev.refused]⟩
       · simp only [shrinks_cons_free] at h ⊢
         obtain ⟨h1, h2⟩ := r.hit ((hh _).2 h)
-        exact ⟨h1, by rw [h2]; simp [A.act, Ev.refused]⟩
-      · rw [r.reqs]; simp [A.act, Ev.isReq]
-      · rw [r.net]; simp [A.act, Ev.delta]; omega
+        exact ⟨h1, by rw [h2]; simp [Ev.refused]⟩
+      · rw [r.reqs]; simp [Ev.isReq]
+      · rw [r.net]; simp [Ev.delta]; omega
       · exact r.nolibc (noLibc_snoc h (by intro _ _ e; cases e))
     | shrink b n =>
       have q := realloc_ok a b (n + 1) n
       have r := ih (a.realloc b (n + 1) n).2
-      simp only [shrinks_cons_shrink, frees_cons_shrink]
+      have hs : shrinks (.shrink b n :: l) = shrinks l + 1 := shrinks_cons_shrink b n l
+      have hf : frees (.shrink b n :: l) = frees l := frees_cons_shrink b n l
       have e : a.act (.shrink b n) = (a.realloc b (n + 1) n).2 := rfl
       rw [e]
       by_cases h1 : a.hits 1
       · obtain ⟨_, hb, hr, hn⟩ := q.hit h1
         have nh : ¬ (a.realloc b (n + 1) n).2.hits (shrinks l) := not_hits_none hb _
         obtain ⟨p1, p2⟩ := r.pass nh
-        refine ⟨fun h => absurd (hits_mono h1 (by omega)) h, fun _ => ⟨?_, by rw [p2, hr]⟩, ?_, ?_, fun h => r.nolibc (q.nolibc h)⟩
+        refine ⟨fun h => ?_, fun _ => ⟨?_, by rw [p2, hr]⟩, ?_, ?_, fun h => r.nolibc (q.nolibc h)⟩
+        · rw [hs] at h; exact absurd (hits_mono h1 (by omega)) h
         · rw [p1]; exact after_none hb _
-        · rw [r.reqs, q.reqs]; omega
-        · rw [r.net, hn]
+        · rw [r.reqs, q.reqs, hs]; omega
+        · rw [r.net, hn, hf]
       · obtain ⟨_, hb, hr, hn⟩ := q.pass h1
         have hh := hits_after hb h1 (shrinks l)
         refine ⟨fun h => ?_, fun h => ?_, ?_, ?_, fun h => r.nolibc (q.nolibc h)⟩
-        · have nh : ¬ (a.realloc b (n + 1) n).2.hits (shrinks l) := by
+        · rw [hs] at h ⊢
+          have nh : ¬ (a.realloc b (n + 1) n).2.hits (shrinks l) := by
             rw [hh]; rw [Nat.add_comm]; exact h
           obtain ⟨p1, p2⟩ := r.pass nh
           exact ⟨by rw [p1, after_after a _ 1 _ hb, Nat.add_comm], by rw [p2, hr]⟩
-        · have yh : (a.realloc b (n + 1) n).2.hits (shrinks l) := by
+        · rw [hs] at h
+          have yh : (a.realloc b (n + 1) n).2.hits (shrinks l) := by
             rw [hh]; rw [Nat.add_comm]; exact h
           obtain ⟨p1, p2⟩ := r.hit yh
           exact ⟨p1, by rw [p2, hr]⟩
-        · rw [r.reqs, q.reqs]; omega
-        · rw [r.net, hn]; simp
+        · rw [r.reqs, q.reqs, hs]; omega
+        · rw [r.net, hn, hf]; simp
 
 end Alloc
 end Rtr
